@@ -47,6 +47,12 @@ def main():
         want = (abs(s) < 2.220446049250313e-16) or abs(q - s) < 0.01
         print('block Q=%r scale=%r used=%r documented=%r' % (q, s, bool(got), want))
         sys.exit(0 if bool(got) == want else 1)
+    if kind == 'select':
+        from . import C13d
+        lib = harness_native('h_slha_blk')
+        got, want, text = C13d.native_select(lib, sys.argv[2])
+        print(text + 'read_block("X", processor, 1000): keys processed %r, expected %r' % (got, want))
+        sys.exit(0 if got == want else 1)
     if kind == 'key':
         print('key-table witness: see check output')
         sys.exit(1)
